@@ -27,13 +27,14 @@ every call with a generic name (any identifier that is not one of the nine speci
 children that are again in the fragment, arguments `key=value` / `key op value` with field-name
 keys (letter, then letters/digits/`_`/`-`) in strictly increasing order, at least one child or
 argument, and values int64, nil, bool, string (any byte string, valid UTF-8 or not, whose quoted form
-does not begin with a digit) and comparisons `== != < <= > >=` with an int64.
+does not begin like a timestamp: four digits and a dash), non-empty lists of int64, and conditions
+`== != < <= > >= ><` on an int64 or on a list of int64 (BETWEEN ranges).
 It goes through the generic PEG interpreter on the grammar REGENERATED from pql.peg (all ten
 alternatives of `Call` and of `item`, `arg`, `args`, all three of `allargs`, `Calls`), the model of the
 action machine with its call stack and the models of strconv.Quote/Unquote, for every table of
 printable characters.
-Excluded and still correspondence-only: floats, lists (hence BETWEEN), reserved keys (`_col`,
-`_field`, ..), strings whose quoted form begins with a digit, calls without children and arguments,
+Excluded and still correspondence-only: floats, lists with other elements than int64, reserved keys (`_col`,
+`_field`, ..), strings whose quoted form begins like a timestamp, calls without children and arguments,
 call-valued arguments, the special-form names (Set, Clear, TopN, Rows, Range, ..); uint64 and typed id
 lists are recorded findings (they cannot round-trip: see the witnesses below). -/
 
@@ -72,10 +73,10 @@ theorem C26_forward_nested_partial (isPrint : Char → Bool) (hnl : isPrint '\n'
     · right; show parseFuel Gen.rule Gen.start n _ = _
       simp [parseFuel, show run Gen.rule n (.ref Gen.start) (fmtCall isPrint c) = _ from ho, hexec]
 
-/-- Non-vacuity: `Count(Union(Row(a=1), Row(b > 2)))` is in the nested fragment (depth 3). -/
+/-- Non-vacuity: `Count(Union(Row(a=1), Row(b >< [2,9])))` is in the nested fragment (depth 3). -/
 example : Nested (fun c => c.toNat ≥ 32 && c.toNat < 127) 3
     (.mk cl!"Count" [] [.mk cl!"Union" []
-      [.mk cl!"Row" [(cl!"a", .int 1)] [], .mk cl!"Row" [(cl!"b", .cond .GT (.int 2))] []]]) := by
+      [.mk cl!"Row" [(cl!"a", .int 1)] [], .mk cl!"Row" [(cl!"b", .cond .BETWEEN (.list [.int 2, .int 9]))] []]]) := by
   refine ⟨⟨'C', cl!"ount", rfl, by decide, by decide⟩, by decide, Or.inr (by simp), by simp, trivial, ?_⟩
   intro ch hch
   simp only [List.mem_singleton] at hch
@@ -93,7 +94,7 @@ example : Nested (fun c => c.toNat ≥ 32 && c.toNat < 127) 3
     intro kv hkv
     simp only [List.mem_singleton] at hkv
     subst hkv
-    exact ⟨⟨'b', [], rfl, by decide, by simp⟩, by simp [cmpOps], by decide, by decide⟩
+    exact ⟨⟨'b', [], rfl, by decide, by simp⟩, by simp [cmpOps], [2, 9], rfl, by simp, by decide⟩
 
 /-- Non-vacuity: `Row(f=-7, g="é\"x", h=null, k=true)` is in the flat fragment. -/
 example : FlatCall (fun c => c.toNat ≥ 32 && c.toNat < 127) cl!"Row"
@@ -107,7 +108,7 @@ example : FlatCall (fun c => c.toNat ≥ 32 && c.toNat < 127) cl!"Row"
     rcases hkv with rfl | rfl | rfl | rfl
     · exact ⟨⟨'f', [], rfl, by decide, by simp⟩, by decide, by decide⟩
     · exact ⟨⟨'g', [], rfl, by decide, by simp⟩, by decide,
-        by simp [NotHead, quoteBody, pieces, decodeRune, isCont, quotePiece, isDigit]⟩
+        by simp [tsPrefix5, quoteBody, pieces, decodeRune, isCont, quotePiece, isDigit]⟩
     · exact ⟨⟨'h', [], rfl, by decide, by simp⟩, trivial⟩
     · exact ⟨⟨'k', [], rfl, by decide, by simp⟩, trivial⟩
   sorted := by simp [SortedKeys, ltKey]
